@@ -722,6 +722,64 @@ def run(rep):
             rep.violation("print-shortest:" + line, "printed text of %r is not the shortest round-trip decimal: %s vs %s"
                           % (x, t[:40], repr(x)), rpl)
         sh_cases.append({"key": line, "line": "num shortest %s %s" % (hb(x), vlib.hx(t))})
+    # ---------------- 5b. every writer of numbers (manifest formats, string conversion, formatting)
+    WRITERS = ['std.manifestJsonEx({a: %s}, "")', 'std.manifestJsonMinified([%s])', 'std.manifestYamlDoc({a: %s})',
+               'std.manifestTomlEx({a: %s}, "")', 'std.manifestToml({t: {a: %s}})', 'std.manifestPython({a: %s})',
+               'std.manifestIni({main: {a: %s}, sections: {}})', 'std.toString(%s)', '"" + %s', '"%%s" %% [%s]', 'std.manifestXmlJsonml(["t", {a: %s}])',
+               'std.manifestYamlStream([%s])', 'std.manifestPythonVars({a: %s})', 'std.manifestTomlEx({a: [%s]}, " ")', 'std.toString([%s])',
+               'std.toString({a: %s})']
+    wvals = [x for x in BOUNDARY if abs(x) >= 1e-300 or x == 0.0] + [1e19, -1e19, 2.0 ** 63, -(2.0 ** 63), 2.0 ** 64, 1e25, -1e25, 1e300,
+                                                                   float(2 ** 62), 9.223372036854776e18, 1.8446744073709552e19, 1e21, 123456789012345680000.0]
+    for _ in range(40 * n_scale):
+        wvals.append(rand_double(rng))
+    wvals = [x for x in wvals if not (math.isinf(x) or math.isnan(x))]
+    wjobs = []
+    for x in wvals:
+        for w in (WRITERS if bits(x) in BSET or abs(x) >= 2.0 ** 62 else rng.sample(WRITERS, 3)):
+            wjobs.append((x, w % repr(x)))
+    wouts = vlib.impl([vlib.eval_line(src) for _, src in wjobs])
+    for (x, src), a in zip(wjobs, wouts):
+        rep.bump("written")
+        rep.count("write:" + src, abs(x) >= 2.0 ** 53 or x != int(x))
+        if a.startswith("panic") or a.startswith("crash"):
+            rep.violation(panic_key(a), "implementation panicked: " + a[:200], {"src": src, "impl": a[:500]})
+            continue
+        if not a.startswith("ok "):
+            rep.violation("write:" + src, "writing %r failed: %s" % (x, a[:100]), {"src": src, "impl": a[:300]})
+            continue
+        try:
+            text = json.loads(vlib.unhx(a.split(" ")[1]).decode("utf-8"))
+        except Exception:  # noqa
+            text = None
+        toks = re.findall(r"-?[0-9][0-9.]*(?:[eE][+-]?[0-9]+)?", text) if isinstance(text, str) else []
+        if not toks:
+            rep.violation("write:" + src, "no number found in the text written for %r: %r" % (x, text), {"src": src, "impl": a[:300]})
+            continue
+        back = float(toks[-1])
+        if bits(back) != bits(x) and not (x == 0.0 and back == 0.0):
+            rep.violation("write-rt:" + src, "%s writes %r as %s, which reads back as a different double (%r)" % (src[:40], x, toks[-1][:40], back),
+                          {"src": src, "double": repr(x), "text": text[:200]})
+
+    # ---------------- 5c. sums through the `+:` field sugar are checked like any other sum
+    PLUS = ['(%s) + (%s)', '({a: %s} + {a+: %s}).a', 'local o = {a: %s}; (o {a+: %s}).a', 'std.foldl(function(o, m) o + m, [{a+: %s}], {a: %s}).a',
+            '({a: %s} + {a+: %s} + {a+: 0}).a', '({a: %s} + {b: 1} + {a+: %s}).a', '{a: %s, b: self.a + (%s)}.b']
+    pj = []
+    big = [MAXF, -MAXF, 1e308, -1e308, 2.0 ** 1023, 8.98846567431158e307, 1.0, 0.0, 1e292, -1e292]
+    for x in big:
+        for y in big:
+            for w in (PLUS if not math.isfinite(x + y) else rng.sample(PLUS, 2)):
+                xs, ys = (repr(x), repr(y)) if 'foldl' not in w else (repr(y), repr(x))
+                pj.append((x, y, w % (xs, ys)))
+    pouts = vlib.impl(["num lit " + vlib.hx(src) for _, _, src in pj])
+    for (x, y, src), a in zip(pj, pouts):
+        rep.bump("plus-sugar")
+        rep.count("plus:" + src, not math.isfinite(x + y))
+        want = "ok %016x" % bits(x + y) if math.isfinite(x + y) else "err NumberOverflow"
+        if a.startswith("panic") or a.startswith("crash"):
+            rep.violation(panic_key(a), "implementation panicked: " + a[:200], {"op": "num lit " + vlib.hx(src), "impl": a[:500]})
+        elif a != want and not (x + y == 0.0 and a in ("ok 0000000000000000", "ok 8000000000000000")):
+            rep.violation("plus:" + src, "%s gave %s, expected %s" % (src[:70], a, want), {"op": "num lit " + vlib.hx(src), "src": src, "impl": a, "expected": want})
+
     # a few deliberately non-shortest / wrong texts for the model side of isShortestRT
     neg_cases = []
     for x, t in [(0.1, "0.10000000000000001"), (0.1, "0.1000000000000000055511151231257827"), (0.3, "0.30000000000000004"),
